@@ -8,6 +8,7 @@ CONSTANTS K = 1
   NH = 3
   Depth = 5
   Acts <- ActsMC
+  LeafProps <- NoProps
   Emit = FALSE
 INIT Init
 NEXT Next
